@@ -44,7 +44,9 @@ func Parse(pattern string, desc bool) *Glob {
 outer:
 	for i := 0; i < len(pattern); i++ {
 		switch pattern[i] {
-		case '[', '*', '?':
+		case '[', '*', '?', '\\':
+			// (an escape ends the literal prefix too: the bytes of the
+			// pattern are no longer the bytes of the matching strings)
 			_, err := Match(pattern, "whatever")
 			if err == nil {
 				isGlob = true
